@@ -527,6 +527,46 @@ Proof.
   - intros m Ht. eapply dir_fix_runs_c; eauto.
 Qed.
 
+(* ---------- the recorded matcher: the hypothesis cm_ok, checked by evaluation ---------- *)
+Lemma span_okb_ok b e m : span_okb b e m = true -> span_ok b e m.
+Proof.
+  unfold span_okb, span_ok. rewrite !andb_true_iff, !Nat.leb_le, Nat.ltb_lt. tauto.
+Qed.
+
+Lemma raw_of_in tr : forall b e c flg a, raw_of tr b e c flg = Some a -> In (b, e, c, Some a) tr.
+Proof.
+  induction tr as [|[[[b' e'] c'] a'] tr IH]; intros b e c flg a H; cbn [raw_of] in H; [discriminate|].
+  destruct ((b =? b')%nat && (e =? e')%nat && (c =? c')%Z) eqn:E.
+  - apply andb_prop in E. destruct E as [E E3]. apply andb_prop in E. destruct E as [E1 E2].
+    apply Nat.eqb_eq in E1, E2. apply Z.eqb_eq in E3. subst. left. reflexivity.
+  - right. eapply IH. exact H.
+Qed.
+
+Theorem matcher_ok_cm_ok s tr : matcher_ok s tr = true -> cm_ok_all (dir_match s (uc_chop s) (raw_of tr)).
+Proof.
+  intros H b e d m M. unfold matcher_ok in H. rewrite forallb_forall in H.
+  assert (A : exists a, raw_of tr b e d (dm_flags s (uc_chop s) b e) = Some a).
+  { unfold dir_match in M. destruct (raw_of tr b e d (dm_flags s (uc_chop s) b e)); [eexists; reflexivity|discriminate]. }
+  destruct A as [a A]. apply raw_of_in in A. specialize (H _ A). cbv beta iota in H.
+  rewrite M in H. apply span_okb_ok. exact H.
+Qed.
+
+Theorem matcher_checked : forall s tr N, matcher_ok s tr = true -> cm_ok (dir_match s (uc_chop s) (raw_of tr)) N.
+Proof. intros s tr N H. apply cm_ok_all_ok. apply matcher_ok_cm_ok. exact H. Qed.
+
+Theorem dir_reorder_checked : forall s xtd ctxfound tr,
+  matcher_ok s tr = true ->
+  exists ord, dir_reorder s xtd ctxfound (raw_of tr) (seq 0 (uc_slen s)) = Some ord /\
+    Permutation ord (seq 0 (uc_slen s)) /\
+    (((0 <? uc_slen s)%nat && (nthb s (nth (uc_slen s - 1) (uc_chop s) 0%nat) =? 10)%N = true) ->
+     nth (uc_slen s - 1) ord 0%nat = (uc_slen s - 1)%nat).
+Proof.
+  intros s xtd ctxfound tr H. pose proof (matcher_checked s tr (uc_slen s) H) as OK.
+  destruct (dir_reorder_total s xtd ctxfound (raw_of tr) (seq 0 (uc_slen s)) OK) as [ord E].
+  exists ord. split; [exact E|]. destruct (dir_reorder_spec _ _ _ _ _ E) as [P L].
+  split; [exact P|intro NL; exact (L NL OK)].
+Qed.
+
 Print Assumptions marks_not_nullable.
 Print Assumptions dr_of_perm.
 Print Assumptions dir_reorder_identity.
